@@ -514,6 +514,32 @@ class C02Award(Monitor):
         self.snap = None
         self.won = None
 
+    def _up_by_history(self, s: State, i):
+        """the cards of player `i` that count at the showdown, from the operations alone: the cards he holds that
+        he tabled (named in, or covered by, one of his shows) or that were dealt to him face up - not the
+        engine's own facing flags"""
+        from collections import Counter
+        open_ = Counter()
+        for o in s.operations:
+            n = type(o).__name__
+            if getattr(o, 'player_index', None) != i:
+                continue
+            if n == 'HoleDealing':
+                open_.update(c for c, u in zip(o.cards, o.statuses) if u and c)
+            elif n == 'HoleCardsShowingOrMucking' and o.hole_cards:
+                for c, k in Counter(c for c in o.hole_cards if c).items():
+                    open_[c] = max(open_[c], k)
+        up = []
+        for c in s.hole_cards[i]:
+            if c and open_[c] > 0:
+                open_[c] -= 1
+                up.append(c)
+        if sorted(map(repr, up)) != sorted(map(repr, s.get_up_cards(i))) and not getattr(self, '_up_reported', False):
+            self._up_reported = True
+            self.report('shown_cards', 'shown_cards', f'player {i} holds {list(s.hole_cards[i])}; tabled or dealt face up: {up}; '
+                        f'the engine counts {list(s.get_up_cards(i))} at the showdown')
+        return up
+
     def _keys(self, s: State, live):
         """the strength of every live player's hand per board and hand type, by the rules (pyspec)"""
         boards = [list(s.get_board_cards(b)) for b in range(s.board_count)]
@@ -522,7 +548,7 @@ class C02Award(Monitor):
         for b, bc in enumerate(boards):
             for k, tn in enumerate(types):
                 for i in live:
-                    up = list(s.get_up_cards(i))
+                    up = self._up_by_history(s, i)
                     try:
                         both = [c for c in list(up) + list(bc) if c]
                         if tn == 'GreekHoldemHand' and len(up) != 2:
@@ -681,7 +707,7 @@ class C03Betting(Monitor):
         n = s.player_count
         st = s.street
         self.round = dict(
-            street=s.street_index, raises=[], acted=set(), count=0,
+            street=s.street_index, raises=[], acted=set(), count=0, level={},
             bring_in_pending=(s.street_index == 0 and s.bring_in > 0),
             completing=(s.street_index == 0 and s.bring_in > 0),
             queue=None, opener=s.opener_index)
@@ -703,6 +729,7 @@ class C03Betting(Monitor):
         if r is None or r['street'] != s.street_index and s.street_index is not None:
             return
         p = operation.player_index
+        r['level'][p] = max(s.bets)     # the bet level this player has now responded to
         if r['queue'] is not None:
             if not r['queue'] or r['queue'][0] != p:
                 self.report('actor', 'actor_order', f'{n} by player {p}, but the rules give the turn to '
@@ -801,6 +828,16 @@ class C03Betting(Monitor):
         else:
             exp_max = s.stacks[p] + s.bets[p]
         got_raise = s.can_complete_bet_or_raise_to()
+        # the same rule read per player (TDA: a short all-in does not re-open the betting for a player who has acted
+        # and does not face at least a full raise when the action returns to him): what counts is what was raised
+        # since HIS last action, not the run of all-in raises since the last raise by a player with chips
+        facing = max_bet - r['level'][p] if p in r['level'] else None
+        exact_short = facing is not None and max_inc > 0 and facing < max_inc
+        exp_exact = not (cap is not None and r['count'] >= cap) and not exact_short and not covered and not nobody
+        if got_raise == exp_raise and got_raise != exp_exact:
+            self.report('raise_admissible', f'raise={int(got_raise)}:since_own_action',
+                        f'can raise {got_raise}; player {p} last acted at bet level {r["level"].get(p)}, the largest bet is {max_bet} '
+                        f'(he faces {facing}), a full raise is {max_inc}; raises of the round {r["raises"]}, bets {s.bets} stacks {s.stacks}')
         if got_raise != exp_raise:
             self.report('raise_admissible', f'raise={int(got_raise)}',
                         f'can raise {got_raise}, rules {exp_raise}: cap {cap} count {r["count"]} short-all-in rule {short_rule} '
